@@ -44,6 +44,9 @@ def run():
     ses = Session("C18")
     rep = ses.rep
     strs = strings(ses.rnd)
+    # texts near the invariant size limit (0x10000 bytes), dense in meta-characters or not
+    strs += ["[0]," * 10000, "a" * 65000, "*" * 32000, "ab/" * 20000 + "?", "{}" * 15000 + "\u91d1" * 5000]
+    long_checked = 0
     rows = probe([{"op": "esc", "raw": s} for s in strs])
     tasks = []
     live = {}
@@ -65,6 +68,12 @@ def run():
         if not row["is_match_raw"]:
             rep.candidate({"escaped-glob-does-not-match-text"},
                           {"short": {"text": s, "escaped": row["escaped"], "pattern": row["re"]}})
+        if len(s) > 2000:
+            # long texts (up to the size limit): the concrete clauses above only -- builds, text()
+            # is the text, the text is matched; the singleton query on a 40 000 character literal is
+            # not worth its solver time
+            long_checked += 1
+            continue
         if "smt" not in row:
             rep.undecided_add({"text": s, "why": row.get("smt_error")})
             continue
@@ -96,6 +105,7 @@ def run():
         "that the parser's stop set equals the meta set for characters outside this alphabet is outside the claim (parser not symbolically executable); the predicates themselves are decided for every char (Kani)",
     ]
     return ses.finish(len(live), {"strings": len(strs), "exhaustive_up_to_length": 3 if tier() == "quick" else 3,
+                                  "long_texts_checked_concretely": long_checked,
                                   "kani": kcov,
                                   "functions_encoded": ["escape", "is_meta_character", "token::parse (concretely)",
                                                          "encode::compile", "Token::variance::<Text>"]},
